@@ -186,6 +186,7 @@ void run_plain(const P& p, int gi, long idx, int mode, const std::string& input)
 
 // grammars with contextual functors: mode selects the context category
 //  20 lvalue Ctx   21 const lvalue Ctx   22 rvalue temporary Ctx   23 move-only lvalue MoCtx   24 lvalue, verbose
+//  25 lvalue (ctx,buf,stream)   26 temporary (ctx,buf,stream)   27 lvalue (ctx,buf)   28 std::move(move-only) (ctx,buf,stream)   29 std::move(Ctx) with options   30 std::move(move-only) (ctx,buf)
 template<class P>
 void run_ctx(const P& p, int gi, long idx, int mode, const std::string& input)
 {
@@ -222,6 +223,41 @@ void run_ctx(const P& p, int gi, long idx, int mode, const std::string& input)
         {
             MoCtx ctx; ctx_expected = &ctx;
             { auto r = p.context_parse(ctx, o, b, ss); c.res = r.has_value(); c.root = root_id(r); }
+            counter_after = ctx.counter;
+        }
+        // the overloads without parse_options / without a stream, and named objects handed over as rvalues
+        else if (mode == 25)
+        {
+            Ctx ctx; ctx_expected = &ctx;
+            { auto r = p.context_parse(ctx, b, ss); c.res = r.has_value(); c.root = root_id(r); }
+            counter_after = ctx.counter;
+        }
+        else if (mode == 26)
+        {
+            { auto r = p.context_parse(Ctx{}, b, ss); c.res = r.has_value(); c.root = root_id(r); }
+        }
+        else if (mode == 27)
+        {
+            Ctx ctx; ctx_expected = &ctx;
+            { auto r = p.context_parse(ctx, b); c.res = r.has_value(); c.root = root_id(r); }
+            counter_after = ctx.counter;
+        }
+        else if (mode == 28)
+        {
+            MoCtx ctx; ctx_expected = &ctx;
+            { auto r = p.context_parse(std::move(ctx), b, ss); c.res = r.has_value(); c.root = root_id(r); }
+            counter_after = ctx.counter;
+        }
+        else if (mode == 29)
+        {
+            Ctx ctx; ctx_expected = &ctx;
+            { auto r = p.context_parse(std::move(ctx), o, b, ss); c.res = r.has_value(); c.root = root_id(r); }
+            counter_after = ctx.counter;
+        }
+        else if (mode == 30)
+        {
+            MoCtx ctx; ctx_expected = &ctx;
+            { auto r = p.context_parse(std::move(ctx), b); c.res = r.has_value(); c.root = root_id(r); }
             counter_after = ctx.counter;
         }
         c.stream = ss.str();
